@@ -854,6 +854,9 @@ where
 // Bridge hosts (serialized)
 // ---------------------------------------------------------------------------
 
+/// events of more than 1 MiB sent over a bridge so far (evidence)
+pub static LARGE_EVENTS: std::sync::atomic::AtomicU64 = std::sync::atomic::AtomicU64::new(0);
+
 #[derive(Deserialize)]
 pub enum FfiEffect {
     #[serde(alias = "OpCap")]
@@ -888,7 +891,7 @@ where
     pub ids: HashMap<Key, (u32, u8)>,
     pub seen_log: usize,
     pub ids_seen: Vec<u32>,
-    /// no-op probes sent so far (every 48th carries 1-2 MiB of bulk)
+    /// no-op probes sent so far
     pub noops: u64,
 }
 
@@ -1123,9 +1126,14 @@ where
             }
             Action::Noop => {
                 self.noops += 1;
-                if self.noops % 48 == 7 {
+                // (byte-wise through erased serde this costs ~0.1 s: one no-op probe in 1500, counted
+                // over the whole process)
+                static PROBES: std::sync::atomic::AtomicU64 = std::sync::atomic::AtomicU64::new(0);
+                let n = PROBES.fetch_add(1, Ordering::Relaxed);
+                if n % 1500 == 700 {
                     // a message of more than 1 MiB: the bridge has no size limit of its own
-                    let n = (1 << 20) + 17 + (self.noops as usize % 5) * 300_000;
+                    let n = (1 << 20) + 17 + (n as usize / 1500 % 3) * 300_000;
+                    LARGE_EVENTS.fetch_add(1, Ordering::Relaxed);
                     self.send_event(&Event::Pad(vec![0xAB; n]))
                 } else {
                     self.send_event(&Event::Noop)
